@@ -722,6 +722,41 @@ def rule_bits(crate, prop, tier):
     AM = "graaf::repr::adjacency_matrix::AdjacencyMatrix"
     n = 0
     shift_obligations(crate, o, lambda p: p.startswith("graaf::repr::adjacency_matrix::"))
+    # words of a matrix that is built as a literal: all zero, a copy, or a padding-preserving word-wise combination of the
+    # words of existing matrices; a local vector that becomes the `blocks` of a literal is written like a matrix
+    local_blocks = {}
+    IT = "core::iter::traits::iterator::Iterator::"
+    for (p, b, i, t) in crate.inv.sites.get(AM, []):
+        if crate.prog.fns[p].get("impl_derived"):
+            continue
+        an = crate.an(p)
+        fi = crate.inv.field_index(AM, "blocks")
+        B = t[3][fi]
+        okw = False
+        if B[0] == "call" and B[1] == "alloc::vec::from_elem" and B[3] and B[3][0][0] == "const" and B[3][0][2] == 0:
+            okw = True
+        elif B[0] == "call" and B[1] == "core::clone::Clone::clone" and B[3] and B[3][0][0] == "at" and B[3][0][1].endswith(".blocks"):
+            okw = True
+        elif B[0] == "call" and B[1] == IT + "collect" and B[3] and B[3][0][0] == "call" and B[3][0][1] == IT + "map" and len(B[3][0][3]) == 2:
+            src, clo = B[3][0][3]
+            if src[0] == "call" and src[1] == IT + "zip" and clo[0] == "agg" and clo[1] == "closure":
+                rets = [e["val"] for e in crate.an(clo[2]).events if e["k"] == "return"]
+                if len(rets) == 1:
+                    r = rets[0]
+                    comps = {("at", "A2.0*", None, ("e",), ()), ("at", "A2.1*", None, ("e",), ()), ("mem", "A2.0*", ("e",), None),
+                             ("mem", "A2.1*", ("e",), None), ("field", ("arg", 2), "0"), ("field", ("arg", 2), "1")}
+                    if r[0] == "call" and r[1] in ("core::ops::bit::BitOr::bitor", "core::ops::bit::BitAnd::bitand",
+                                                   "core::ops::bit::BitXor::bitxor") and len(r[3]) == 2 and set(r[3]) <= comps:
+                        okw = True
+                    if r[0] == "bin" and r[1] in ("BitOr", "BitAnd", "BitXor") and {r[2], r[3]} <= comps:
+                        okw = True
+        n += 1
+        o.check(okw, crate.prog.pretty[p], "literal-words", "the words of a new AdjacencyMatrix are computed wholesale (not all zero, not a "
+                "copy, not a word-wise |, &, ^ of two matrices of equal order): nothing shows that the padding bits past order*order "
+                "stay zero, and equal digraphs must have equal words", an.blocks[b]["stmts"][i]["span"])
+        for (var, ver), v in an.term_of.items():
+            if v == B and isinstance(var, str) and var.startswith("L"):
+                local_blocks.setdefault(p, set()).add(var)
     for p in crate.fn_paths():
         an = crate.an(p)
         for ev in an.events:
@@ -730,7 +765,7 @@ def rule_bits(crate, prop, tier):
             c, idx = store_elem(ev)
             R = region_of_container(c) if c else None
             ri = an.region_info.get(R) if R else None
-            if not (ri and ri.get("chain") and ri["chain"][-1] == (AM, "blocks")):
+            if not ((ri and ri.get("chain") and ri["chain"][-1] == (AM, "blocks")) or (R is not None and R in local_blocks.get(p, ()))):
                 continue
             n += 1
             v = ev["val"]
